@@ -278,7 +278,17 @@ pub fn run_child(bin: &Path, argv_tail: &[String], s: &Scratch, out: &OutFault) 
 
 /// Child process printing to stdout (no -o), no fault.
 pub fn run_child_stdout(bin: &Path, argv_tail: &[String]) -> CliResult {
-    let o = match output_locked(Command::new(bin).args(argv_tail).stdin(Stdio::null())) {
+    run_child_stdout_threads(bin, argv_tail, None)
+}
+
+/// Same, with the size of rayon's global pool fixed through RAYON_NUM_THREADS.
+pub fn run_child_stdout_threads(bin: &Path, argv_tail: &[String], threads: Option<usize>) -> CliResult {
+    let mut cmd = Command::new(bin);
+    cmd.args(argv_tail).stdin(Stdio::null());
+    if let Some(t) = threads {
+        cmd.env("RAYON_NUM_THREADS", t.to_string());
+    }
+    let o = match output_locked(&mut cmd) {
         Ok(o) => o,
         Err(e) => return CliResult::Err(format!("spawn: {e}")),
     };
